@@ -140,7 +140,7 @@ def main():
                           {k: v for k, v in r.items() if k != "id"})
         elif cmd == "run":
             bad = 0
-            with cf.ThreadPoolExecutor(6) as ex:
+            with cf.ThreadPoolExecutor(14) as ex:
                 for r in ex.map(run_one, ids):
                     if r.get("applies") is False:
                         print(f"{r['id']}: PATCH-CONFLICT")
